@@ -157,3 +157,196 @@ func c06SimplifyBetween(w *c06World) {
 			fmt.Sprintf("simplifyExpression rewrites BETWEEN (%s) into an expression with a different three-valued result: %s", sc.name, strings.Join(diffs, "; ")))
 	}
 }
+
+// C06-SC: the And / Or arms of simplifyExpression (absorbing and neutral literal operands) return an
+// expression with the same three-valued table, and never hand back a non-boolean operand as the value
+// of the connective. getDefiniteBoolValues is folded, not assumed.
+
+func c06SimplifyConnectives(w *c06World) {
+	c := w.c
+	fd := c.P.Decl(LookupFunc(w.an, "simplifyExpression"))
+	litT, predT, fieldT := c06PtrTo(w.ex, "Literal"), c06PtrTo(w.ex, "Equals"), c06PtrTo(w.ex, "GetField")
+	andT := c06PtrTo(w.ex, "And")
+	valueFn := LookupFunc(w.ex, "Literal.Value")
+	newTrue, newFalse := LookupFunc(w.ex, "NewTrue"), LookupFunc(w.ex, "NewFalse")
+	newLit := LookupFunc(w.ex, "NewLiteral")
+	isBool := LookupFunc(w.ty, "IsBoolean")
+	convBool := LookupFunc(w.sq, "ConvertToBool")
+	if fd == nil || litT == nil || predT == nil || fieldT == nil || andT == nil || valueFn == nil || newTrue == nil || newFalse == nil || isBool == nil {
+		c.Undecided("C06-SC", "simplifyExpression", 0, "simplifyExpression / Literal / NewTrue / NewFalse / IsBoolean not found")
+		return
+	}
+	var lit *ast.FuncLit
+	ast.Inspect(fd.Body, func(n ast.Node) bool {
+		fl, ok := n.(*ast.FuncLit)
+		if !ok || lit != nil {
+			return lit == nil
+		}
+		mentions := false
+		ast.Inspect(fl.Body, func(x ast.Node) bool {
+			if se, ok := x.(*ast.StarExpr); ok {
+				if tv, ok := w.an.TypesInfo.Types[se]; ok && tv.IsType() && types.Identical(tv.Type, andT) {
+					mentions = true
+				}
+			}
+			return !mentions
+		})
+		if mentions {
+			lit = fl
+			return false
+		}
+		return true
+	})
+	if lit == nil {
+		c.Note("C06-SC", "simplifyExpression", fd.Pos(), "no And/Or arm in simplifyExpression (nothing to decide)")
+		return
+	}
+	t := w.terms()
+	kinds := []string{"TRUE", "FALSE", "NULL", "predicate", "non-boolean"}
+	mkLeaf := func(kind, name string) *MSym {
+		s := &MSym{Name: name}
+		switch kind {
+		case "TRUE", "FALSE", "NULL":
+			s.Dyn = litT
+		case "predicate":
+			s.Dyn = predT
+		default:
+			s.Dyn = fieldT
+		}
+		return s
+	}
+	fixed := map[string]int{"TRUE": 1, "FALSE": 0, "NULL": -1}
+	for _, conn := range []string{"And", "Or"} {
+		for _, lk := range kinds {
+			for _, rk := range kinds {
+				key := fmt.Sprintf("simplifyExpression/%s(%s,%s)", conn, lk, rk)
+				l, r := mkLeaf(lk, "left"), mkLeaf(rk, "right")
+				kindOf := map[*MSym]string{l: lk, r: rk}
+				e := t.mk(conn, l, r)
+				tTrue, tFalse := &MSym{Name: "TRUE", Dyn: litT}, &MSym{Name: "FALSE", Dyn: litT}
+				m := w.mini(w.an)
+				m.Call = func(m *Mini, call *ast.CallExpr, fn *types.Func, recv MV, args []MV) ([]MV, bool) {
+					if fn == nil {
+						return nil, false
+					}
+					switch {
+					case fn == newTrue:
+						return []MV{tTrue}, true
+					case fn == newFalse:
+						return []MV{tFalse}, true
+					case fn == newLit && newLit != nil && len(args) == 2: // a literal built directly
+						if b, ok := MBool(args[0]); ok {
+							if b {
+								return []MV{tTrue}, true
+							}
+							return []MV{tFalse}, true
+						}
+						return nil, false
+					case fn == valueFn:
+						if s, ok := recv.(*MSym); ok {
+							switch kindOf[s] {
+							case "TRUE":
+								return []MV{constant.MakeBool(true)}, true
+							case "FALSE":
+								return []MV{constant.MakeBool(false)}, true
+							case "NULL":
+								return []MV{w.nilSym}, true
+							}
+						}
+						return nil, false
+					case fn == convBool && convBool != nil && len(args) == 2:
+						if _, ok := MBool(args[1]); ok {
+							return []MV{args[1], w.nilSym}, true
+						}
+						return nil, false
+					case fn == isBool && len(args) == 1:
+						if ts, ok := args[0].(*MSym); ok && strings.HasPrefix(ts.Name, "type:") {
+							return []MV{constant.MakeBool(ts.Name != "type:non-boolean")}, true
+						}
+						return nil, false
+					}
+					if s, ok := recv.(*MSym); ok && fn.Type().(*types.Signature).Results().Len() == 1 && len(args) == 1 {
+						if k, isLeaf := kindOf[s]; isLeaf { // leaf.Type(ctx)
+							return []MV{&MSym{Name: "type:" + k}}, true
+						}
+					}
+					return t.call(fn, recv, args)
+				}
+				bind := map[types.Object]MV{}
+				n := 0
+				for _, f := range lit.Type.Params.List {
+					for _, id := range f.Names {
+						var v MV = &MSym{Name: id.Name}
+						if _, isIface := w.an.TypesInfo.Defs[id].Type().Underlying().(*types.Interface); isIface && (n > 0 || len(lit.Type.Params.List) == 1) {
+							v = e
+						}
+						bind[w.an.TypesInfo.Defs[id]] = v
+						n++
+					}
+				}
+				res, returned, panicked, _, err := m.RunBlock(lit.Body.List, bind)
+				if err != nil || !returned || panicked || len(res) == 0 {
+					c.Undecided("C06-SC", key, lit.Pos(), fmt.Sprint("arm not foldable: ", err))
+					continue
+				}
+				out, _ := res[0].(*MSym)
+				if out == nil {
+					c.Undecided("C06-SC", key, lit.Pos(), "the arm does not return an expression")
+					continue
+				}
+				if out == e {
+					c.Ok("C06-SC", key, lit.Pos(), "left as it is")
+					continue
+				}
+				if k, isLeaf := kindOf[out]; isLeaf && k == "non-boolean" {
+					c.Bad("C06-SC", key, lit.Pos(), fmt.Sprintf("%s(%s,%s) is replaced by its non-boolean operand: the connective yields 0/1/NULL, the operand its own value", conn, lk, rk))
+					continue
+				}
+				// all truth assignments of the varying leaves
+				vary := []*MSym{}
+				base := map[*MSym]int{tTrue: 1, tFalse: 0}
+				for _, s := range []*MSym{l, r} {
+					if v, ok := fixed[kindOf[s]]; ok {
+						base[s] = v
+					} else {
+						vary = append(vary, s)
+					}
+				}
+				var diffs []string
+				var evalErr error
+				var rec func(i int, asg map[*MSym]int)
+				rec = func(i int, asg map[*MSym]int) {
+					if i == len(vary) {
+						a := c06Asg{truth: asg}
+						vi, err1 := t.eval(e, a)
+						vo, err2 := t.eval(out, a)
+						if err1 != nil || err2 != nil {
+							evalErr = fmt.Errorf("%v %v", err1, err2)
+							return
+						}
+						if vi != vo {
+							diffs = append(diffs, fmt.Sprintf("left=%s,right=%s: %s, rewritten %s", c05Name(asg[l]), c05Name(asg[r]), c05Name(vi), c05Name(vo)))
+						}
+						return
+					}
+					for _, v := range []int{1, 0, -1} {
+						next := map[*MSym]int{}
+						for k, x := range asg {
+							next[k] = x
+						}
+						next[vary[i]] = v
+						rec(i+1, next)
+					}
+				}
+				rec(0, base)
+				if evalErr != nil {
+					c.Undecided("C06-SC", key, lit.Pos(), evalErr.Error())
+					continue
+				}
+				sort.Strings(diffs)
+				c.Check(len(diffs) == 0, "C06-SC", key, lit.Pos(), "same table",
+					fmt.Sprintf("simplifyExpression rewrites %s(%s,%s) into an expression with a different three-valued result: %s", conn, lk, rk, strings.Join(diffs, "; ")))
+			}
+		}
+	}
+}
